@@ -167,6 +167,16 @@ def bounded(ctx):
                     r = rng.randrange(len(text))
                     rec = CircularRecord(Seq(ba.rotate(text, r)), id="mod%d" % i, name="mod%d" % i,
                                          annotations={"topology": "circular", "molecule_type": "DNA"})
+                    if (i + chain_len) % 2 == 0:
+                        # plasmids that were themselves assembled, or exported by an editor, carry provenance features of
+                        # their own: a `source` feature naming an ancestor (here on the discarded backbone: it is not
+                        # inherited, and the product must name *this* plasmid, not its ancestor)
+                        from Bio.SeqFeature import SeqFeature, FeatureLocation
+                        bb = (text.index(gen.rc(site)) + len(site) + 1 - r) % len(text)
+                        if bb + 3 <= len(text):
+                            rec.features.append(SeqFeature(FeatureLocation(bb, bb + 3, strand=1), type="source", qualifiers={
+                                "organism": ["synthetic DNA construct"], "mol_type": ["other DNA"], "plasmid": ["ancestor%d" % i],
+                                "label": ["source: ancestor%d" % i]}))
                     mods.append(Mod(rec))
                 stray_text = None
                 while stray_text is None:
